@@ -5,7 +5,8 @@
     * the cached mask never goes stale (`sfRun_coherent`), so `fault()` after ANY history is `fault` of the current
       system at the current plane (`faultCore_eq`, `fault_after_history`);
     * an accepted `surface()` call forgets the past (`surfaceSF_forgets`, `sfRun_history_independent`,
-      `history_eq_fresh`); its default plane is the middle of the NEW system (`surfaceSF_default_plane`).
+      `history_eq_fresh`); its default plane is the middle of the NEW system (`surfaceSF_default_plane`);
+    * the stored system after any history is a build of the rotated cell with non-zero multipliers (`sfRun_built`).
 -/
 import Atomman.C14
 import Mathlib.Algebra.Order.Field.Basic
@@ -339,4 +340,184 @@ theorem surfaceSF_default_plane (st : SFStatic K) (o o' : SFState K) (a : SurfAr
         exact ⟨s, rfl, rfl, rfl, rfl, rfl⟩
 
 end object
+section built
+variable {K : Type} [Field K] [LinearOrder K] [IsStrictOrderedRing K]
+
+/-- the stored system, when there is one, is `buildSurface` of the rotated cell for some shift, sizes and vacuum. -/
+def Built (st : SFStatic K) (o : SFState K) : Prop :=
+  ∀ s, o.system = some s → ∃ sh s0 s1 s2 vac, s0.mult ≠ 0 ∧ s1.mult ≠ 0 ∧ s2.mult ≠ 0 ∧
+    s = buildSurface st sh s0 s1 s2 vac
+
+theorem size?_mult (m : MultArg) (s : C04.Size) (h : m.size? = .ok s) : s.mult ≠ 0 := by
+  cases m with
+  | int n =>
+    simp only [MultArg.size?, C04.Size.ofInt?] at h
+    split at h
+    · rename_i s' hs
+      cases h
+      split at hs
+      · cases hs; simp only [C04.Size.mult]; omega
+      · split at hs
+        · cases hs; simp only [C04.Size.mult]; omega
+        · cases hs
+    · cases h
+  | pair lo hi =>
+    simp only [MultArg.size?, C04.Size.ofPair?] at h
+    split at h
+    · rename_i s' hs
+      cases h
+      split at hs
+      · rename_i hc; cases hs; simp only [C04.Size.mult]; exact hc.2.2
+      · cases hs
+    · split at h <;> cases h
+
+theorem sizesOf_mult (cut : Cut) (a : SurfArgs K) (s0 s1 s2 : C04.Size) (h : sizesOf cut a = .ok (s0, s1, s2)) :
+    s0.mult ≠ 0 ∧ s1.mult ≠ 0 ∧ s2.mult ≠ 0 := by
+  unfold sizesOf at h
+  simp only [bind, Except.bind, pure, Except.pure] at h
+  repeat' split at h
+  all_goals first
+    | (simp only [Except.ok.injEq, Prod.mk.injEq] at h
+       obtain ⟨rfl, rfl, rfl⟩ := h
+       exact ⟨size?_mult _ _ (by assumption), size?_mult _ _ (by assumption), size?_mult _ _ (by assumption)⟩)
+    | cases h
+
+theorem built_congr (st : SFStatic K) (o o' : SFState K) (h1 : o'.system = o.system) (h : Built st o) : Built st o' := by
+  intro s hs; rw [h1] at hs; exact h s hs
+
+theorem surfaceBase_built (st : SFStatic K) (o : SFState K) (a : SurfArgs K) (h : Built st o) :
+    Built st (surfaceBase st o a).1 := by
+  obtain ⟨sh0, sys, fr, fc, ab, a1, a2⟩ := o
+  unfold surfaceBase
+  cases hsh : resolveShift st sh0 a.shift with
+  | error e' => exact h
+  | ok sh =>
+    simp only
+    cases hsz : sizesOf st.cut a with
+    | error e' => exact h
+    | ok sz =>
+      obtain ⟨s0, s1, s2⟩ := sz
+      simp only
+      cases hv : a.vac with
+      | none =>
+        obtain ⟨m0, m1, m2⟩ := sizesOf_mult st.cut a s0 s1 s2 hsz
+        intro s hs; simp only [Option.some.injEq] at hs; exact ⟨sh, s0, s1, s2, none, m0, m1, m2, hs.symm⟩
+      | some v =>
+        simp only
+        by_cases hneg : v < 0
+        · simp only [if_pos hneg]; exact h
+        · simp only [if_neg hneg]
+          obtain ⟨m0, m1, m2⟩ := sizesOf_mult st.cut a s0 s1 s2 hsz
+          intro s hs; simp only [Option.some.injEq] at hs; exact ⟨sh, s0, s1, s2, some v, m0, m1, m2, hs.symm⟩
+
+theorem setFpRel_system (st : SFStatic K) (o : SFState K) (r : K) : (setFpRel st o r).1.system = o.system := by
+  obtain ⟨sh, sys, fr, fc, ab, a1, a2⟩ := o
+  unfold setFpRel
+  split
+  · rfl
+  · cases sys <;> rfl
+
+theorem setFpCart_system (st : SFStatic K) (o : SFState K) (c : K) : (setFpCart st o c).1.system = o.system := by
+  obtain ⟨sh, sys, fr, fc, ab, a1, a2⟩ := o
+  unfold setFpCart
+  cases sys with
+  | none => rfl
+  | some s => simp only; split <;> rfl
+
+theorem setFaultpos_system (st : SFStatic K) (o : SFState K) (d : Bool) (a : FaultPosArg K) :
+    (setFaultpos st o d a).1.system = o.system := by
+  cases a with
+  | none => simp only [setFaultpos]; split
+            · exact setFpRel_system st o _
+            · rfl
+  | rel r => exact setFpRel_system st o r
+  | cart c => exact setFpCart_system st o c
+  | both => rfl
+
+theorem andThen_built {α : Type} (st : SFStatic K) (r : SFState K × Except String Unit)
+    (f : SFState K → SFState K × Except String α) (hr : Built st r.1)
+    (hf : ∀ o, Built st o → Built st (f o).1) : Built st (andThen r f).1 := by
+  obtain ⟨o, e⟩ := r
+  cases e with
+  | error e => exact hr
+  | ok u => exact hf o hr
+
+theorem setAvect_system (st : SFStatic K) (o : SFState K) (f : Bool) (u : V3 K) : (setAvect st o f u).1.system = o.system := by
+  unfold setAvect
+  simp only
+  split
+  · split <;> rfl
+  · rfl
+
+theorem optAvect_system (st : SFStatic K) (o : SFState K) (f : Bool) (u : Option (V3 K)) :
+    (optAvect st o f u).1.system = o.system := by
+  cases u with
+  | none => rfl
+  | some u => exact setAvect_system st o f u
+
+theorem faultPrelude_built (st : SFStatic K) (o : SFState K) (a1v a2v : Option (V3 K)) (fpos : FaultPosArg K)
+    (h : Built st o) : Built st (faultPrelude st o a1v a2v fpos).1 := by
+  unfold faultPrelude
+  apply andThen_built
+  · exact built_congr st o _ (optAvect_system st o true a1v) h
+  · intro o1 h1
+    apply andThen_built
+    · exact built_congr st o1 _ (optAvect_system st o1 false a2v) h1
+    · intro o2 h2
+      exact built_congr st o2 _ (setFaultpos_system st o2 false fpos) h2
+
+theorem sfStep_built (st : SFStatic K) (o : SFState K) (op : SFOp K) (h : Built st o) : Built st (sfStep st o op).1 := by
+  cases op with
+  | setShift a =>
+    show Built st (setShiftOp st o a).1
+    unfold setShiftOp
+    cases a <;> simp only <;> split <;> exact h
+  | surface a =>
+    show Built st (surfaceSF st o a).1
+    unfold surfaceSF
+    apply andThen_built
+    · exact surfaceBase_built st o a h
+    · intro o1 h1
+      exact built_congr st o1 _ (by rw [setFaultpos_system]; rfl) h1
+  | fpRel r => exact built_congr st o _ (setFpRel_system st o r) h
+  | fpCart c => exact built_congr st o _ (setFpCart_system st o c) h
+  | fault a =>
+    show Built st (faultOp st o a).1
+    unfold faultOp
+    apply andThen_built
+    · exact faultPrelude_built st o a.a1v a.a2v a.fpos h
+    · intro o1 h1; exact h1
+  | faultMap a1v a2v fpos n1 n2 oop =>
+    show Built st (iterFaultMap st o a1v a2v fpos n1 n2 oop).1
+    unfold iterFaultMap
+    apply andThen_built
+    · exact faultPrelude_built st o a1v a2v fpos h
+    · intro o1 h1; exact h1
+
+/-- **the stored system after any history is a build of the rotated cell** (`surface_same_crystal`, `surface_pbc`,
+    `vacuum_same_crystal` then speak about it): no call other than an accepted `surface()` touches it. -/
+theorem sfRun_built (st : SFStatic K) (ops : List (SFOp K)) (o : SFState K) (h : Built st o) :
+    Built st (sfRun st o ops).1 := by
+  induction ops generalizing o with
+  | nil => exact h
+  | cons op t ih => exact ih _ (sfStep_built st o op h)
+
+/-- a new object holds no system. -/
+theorem sfNew_built (st : SFStatic K) (a : ShiftArg K) (o : SFState K) (h : sfNew st a = .ok o) : Built st o := by
+  unfold sfNew at h
+  simp only at h
+  generalize ho : (⟨zeroV3, none, none, none, none, st.rbox.vects.row ((cutIndex st.cut + 1) % 3),
+    st.rbox.vects.row ((cutIndex st.cut + 2) % 3)⟩ : SFState K) = o0 at h
+  have h0 : Built st o0 := by intro s hs; rw [← ho] at hs; cases hs
+  have := sfStep_built st o0 (.setShift a) h0
+  simp only [sfStep] at this
+  split at h
+  · rename_i o' he
+    cases h
+    rw [he] at this
+    exact this
+  · cases h
+
+end built
+
 end Atomman.C14
